@@ -23,6 +23,11 @@ Definition global_ok (g : string * string * string * bool * list string * bool) 
 Lemma bridge_globals : forallb global_ok gen_globals = true.
 Proof. vm_compute. reflexivity. Qed.
 
+(* the library does not borrow mutable state from libc either: no reference to a libc function that keeps or returns static /
+   process-wide state (gmtime, localtime, strtok, rand, strerror, setlocale, getenv, ..: translator/inventory.py LIBC_STATE) *)
+Lemma bridge_no_libc_static_state : gen_libc_state_refs = [].
+Proof. vm_compute. reflexivity. Qed.
+
 (* the streaming decoder, the loaders, the low-level encoders, the UTF-8 counter and the size guards keep no state
    between calls: no variable with static storage duration in their files is mutable or ever assigned *)
 Definition stateless_files := ["cbor/streaming.c"; "cbor/internal/loaders.c"; "cbor/internal/encoders.c"; "cbor/encoding.c";
